@@ -61,27 +61,51 @@ def main(tier, replay):
                     except ValueError:
                         info[k] = v
     vlib.standard_coverage(chk, stats,
-        "real OSSPSReconstruction<DiscretisedDensity<3,float>> (set_up / reconstruct(target) / update_estimate) with "
+        "real OSSPSReconstruction<DiscretisedDensity<3,float>> (set_up / reconstruct(target) / update_estimate / end_of_iteration_processing) with "
         "PoissonLogLikelihoodWithLinearModelForMeanAndProjData + ProjMatrixByBinUsingRayTracing on generated scanners (8-12 detectors, "
-        "2-3 rings, all symmetry switches), images 5-7 across, every number of subsets 1..views, alpha/gamma/upper bound/start subset/"
-        "enforce_initial_positivity varied, no prior / QuadraticPrior (default, 2D, custom weights, kappa, beta=0) / a QuadraticPrior "
-        "declared image dependent (recompute branch) / refused configurations.  The explicit system matrix, data, prior weights are "
-        "given to the Lean model, which recomputes in exact rationals: D0 = -H(1), sensitivity-zero mask, image after set_up, every "
-        "penalised sub-gradient and surrogate curvature update_estimate obtained (`grad`, `curv`), and every sub-iteration "
-        "(`step`: before, gradient and curvature as returned by the real objects -> after, subset used) of the uninterrupted run, of a "
-        "second reconstruct() without set_up, and of runs resumed from every saved iterate (fresh objects, "
-        "enforce_initial_positivity off and on).  Comparison per voxel |impl - exact| <= bound with the derived forward bounds: "
-        "step 32*2^-24*(|lambda|+|update|) (8 float operations, 4*n*2^-24*sum|terms|); grad 4*2^-24*(sum_b P_bj(|q_b|((n_b+3)*M_b/|den_b|+2)+2+"
-        "(m_j+2)|q_b-1|) + 4*PM_j/N + |g_j|) with n_b the row length, m_j the number of bins of the subset seeing voxel j, M_b = sum|P x|+|a|, "
-        "PM_j the prior's sum of |terms|; D0 4*n*2^-24*D0_j with n = longest row + most bins per voxel + subsets + 6; curvature 4*90*2^-24*c_j. "
-        "The model is re-synchronised to the implementation's floats after every sub-iteration.  Oracle on the implementation: iterates in "
-        "[0, ub]; D0 >= 0 and bitwise equal to -add_multiplication_with_approximate_Hessian_without_penalty(ones); gradient taken at the "
-        "current image for the scheduled subset; ascent direction (D > 0); one zeta for all voxels, recovered from unclamped voxels, equal to "
-        "alpha/(1+gamma n) with n the full-iteration number; full formula per voxel; saved files equal in-memory iterates; resumed runs "
-        "bitwise equal to the uninterrupted run.",
+        "2-3 rings, all symmetry switches; non-TOF, or TOF with 5 bins / 9 bins mashed by 3), images 5-7 across, every number of subsets "
+        "1..views, alpha/gamma/upper bound/start subset/enforce_initial_positivity varied, no prior / QuadraticPrior (default, 2D, custom "
+        "weights, kappa, beta=0) / a QuadraticPrior declared image dependent (recompute branch) / refused configurations; objective "
+        "function with trivial normalisation or BinNormalisationFromProjData with random factors in [0.5,2.5], zero_seg0_end_planes off/on, "
+        "use_subset_sensitivities on/off (unbalanced subsets then refused by set_up), TOF data with and without `use time-of-flight "
+        "sensitivities` (non-TOF sensitivity projector); reconstruction with randomise_subset_order, a real SeparableConvolutionImageFilter "
+        "(smoothing 1/4,1/2,1/4 or sharpening -1/8,5/4,-1/8 in x and y) as inter-iteration filter (interval 1 or 2) and/or post filter; every "
+        "run has at least one case of each kind.  The explicit system matrix (one row per bin and TOF bin, normalisation factor, zeroed flag, "
+        "subset), the non-TOF sensitivity rows, data, prior weights are given to the Lean model, which recomputes in exact rationals: D0 = "
+        "-H(1) (data y n^2, end planes of segment 0 included as in the code), sensitivity-zero mask, refusal of unbalanced subsets, image "
+        "after set_up, every penalised sub-gradient (y/(Px+a) - 1/n, zeroed bins dropped) and surrogate curvature update_estimate obtained "
+        "(`grad`, `curv`), every sub-iteration (`step`: before, gradient and curvature as returned by the real objects -> after, subset used; "
+        "with a randomised order the subset is the implementation's) and what end_of_iteration_processing makes of it (`endit`: filters by "
+        "interval / last sub-iteration, 3-tap convolution with zero boundary) of the uninterrupted run, of a second reconstruct() without "
+        "set_up, and of runs resumed from every saved iterate with fresh objects: enforce_initial_positivity off and on, `precomputed "
+        "denominator := <file written by the first set_up>`, a user supplied denominator 2 D0 + 1 from file (`setupf`), plus set_up with "
+        "denominator files that are missing / have another index range, origin (0.5 mm, 1/256 mm) or voxel size (x1.5, x(1+2^-16)): refused "
+        "or accepted exactly as has_same_characteristics' tolerances say.  Comparison per voxel |impl - exact| <= bound with the derived "
+        "forward bounds: step 32*2^-24*(|lambda|+|update|) (8 float operations, 4*n*2^-24*sum|terms|); grad 4*2^-24*(sum_b P_bj(|q_b|((n_b+3)*"
+        "M_b/|den_b|+2)+2+2/n_b+(m_j+2)|q_b-1/n_b|) + 4*PM_j/N + |g_j|) with n_b the row length, m_j the number of bins of the subset seeing "
+        "voxel j, M_b = sum|P x|+|a|, PM_j the prior's sum of |terms|; D0 4*n*2^-24*D0_j with n = longest row + most bins per voxel + subsets "
+        "+ 8; curvature 4*90*2^-24*c_j; filters 64*2^-24*(|taps| applied to |image|).  The model is re-synchronised to the implementation's "
+        "floats after every sub-iteration.  Oracle on the implementation: iterates in [0, ub] after update_estimate, and after the filters "
+        "when these are bound preserving (smoothing kernel; iterates leaving the bounds after the sharpening kernel are counted, not judged: "
+        "OSSPS does not clamp after filtering, Lean: C08_in_bounds_fails_after_sharpening_filter); D0 >= 0, bitwise equal to "
+        "-add_multiplication_with_approximate_Hessian_without_penalty(ones) and equal to sum_b P_bj (P1)_b/(n_b^2 y_b) over the bins of the "
+        "objective function (fails with zero_seg0_end_planes: known finding denominator:includes-zeroed-seg0-end-planes); gradient equal "
+        "to the definition sum_{b in S} P_bj (y_b/(Px+a)_b - 1/n_b) - prior, taken at the current image for the scheduled subset (randomised "
+        "order: every complete full iteration uses a permutation of the subsets); ascent direction (D > 0); one zeta for all voxels, "
+        "recovered from unclamped voxels, equal to alpha/(1+gamma n) with n the full-iteration number; full formula per voxel; saved files "
+        "equal the iterates after end_of_iteration_processing and the next sub-iteration starts from them; resumed runs (recomputed "
+        "denominator, and denominator read back from the file set_up wrote) bitwise equal to the uninterrupted run, filters included; "
+        "mismatching / missing denominator files refused.",
         extra=dict(harness_counts=info))
     chk.assumptions += ["float rounding is modelled only through the forward error bounds above (the model is exact rational arithmetic)",
-                        "bin normalisation is 1, no TOF, no zero_seg0_end_planes, subset order not randomised (C06), no inter-iteration / post filter",
+                        "normalisation only through BinNormalisationFromProjData (factor per bin, independent of the TOF bin; other normalisation classes: C05/C13); "
+                        "no max_segment_num_to_process restriction, no MPI, single thread",
+                        "randomise_subset_order: rand() is re-seeded by the harness after set_up (set_up seeds it from the clock); the permutation itself is not modelled, "
+                        "the subset used is taken from the implementation and resumed runs are not expected to reproduce a randomised run",
+                        "filters: only SeparableConvolutionImageFilter with 3 taps in x and y; other image processors (median, Metz, chained) are covered only by the "
+                        "abstract theorem C08_in_bounds_after_filters",
+                        "has_same_characteristics is modelled for VoxelsOnCartesianGrid (origin, index range, grid spacing), exact squares instead of float norms; "
+                        "cases closer than 2x to a tolerance are not generated",
                         "the transaxial voxel size of the generated images is a multiple of 0.25 mm: the Interfile header written with a saved iterate "
                         "keeps 6 significant digits of the voxel size, other grids are not reproduced exactly by a resumed run's set_up (C10)",
                         "the objective function is observed through recording subclasses (compute_sub_gradient, parabolic_surrogate_curvature) and public API only",
